@@ -285,6 +285,41 @@ func provenance(b *harness.B, c *chaingen.Chain, s sample) {
 			}
 		}
 	}
+	// the supplement is derived from (parent state, block) by the caller's store; ValidateBlock checks it. A supplement
+	// that additionally lists a live v1 contract which does NOT expire at this height must be refused - or else lead
+	// to the same state
+	if h := s.cs.Index.Height + 1; s.valid && h < c.Net.N.HardforkV2.RequireHeight && c.Tip().Index == s.cs.Index {
+		touched := map[types.FileContractID]bool{}
+		for _, t := range s.b.Transactions {
+			for _, r := range t.FileContractRevisions {
+				touched[r.ParentID] = true
+			}
+			for _, sp := range t.StorageProofs {
+				touched[sp.ParentID] = true
+			}
+		}
+		for _, e := range s.bs.ExpiringFileContracts {
+			touched[e.ID] = true
+		}
+		for _, id := range c.S.OrderedFC() {
+			fce := c.S.FCEs[id]
+			if touched[id] || fce.FileContract.WindowEnd == h {
+				continue
+			}
+			bs2 := s.bs
+			bs2.ExpiringFileContracts = append(append([]types.FileContractElement(nil), s.bs.ExpiringFileContracts...), fce.Copy())
+			got := evaluate(s.cs, s.b, bs2, c)
+			b.Eval(1)
+			b.Count("supplement_with_a_contract_not_expiring_comparisons", 1)
+			if got.verdict == "<accepted>" {
+				if d := ref.equal(got); d != "" {
+					b.Violate("C09/provenance/state-depends-on-the-supplement/contract-listed-as-expiring-before-its-window-end",
+						fmt.Sprintf("the same block on the same parent state is accepted with the store's supplement and with one that also lists live v1 contract %v (window end %d) as expiring at height %d, and reaches different states: %s", id, fce.FileContract.WindowEnd, h, d), wit)
+				}
+			}
+			break
+		}
+	}
 	// while the chain holds an even number of timestamps their median may fall on a half second: a header stamped
 	// between the whole second and the median is the same block as its decoded copy (whole seconds only)
 	if med := chaingen.Median(s.cs); s.valid && med.Nanosecond() != 0 {
